@@ -388,6 +388,15 @@ CaseResult run_md(const RunCtx &ctx, TapeReader &t, unsigned size_hint) {
     uint64_t n_boxes = 0, n_results = 0, n_queries = 0;
     bool nt = false;
 
+    if (mem) {
+        // C17 only (memory safety of every public operation; no answer is judged here): plain traversal begin()..end(),
+        // size_in_bytes()
+        volatile uint64_t sink = idx->size_in_bytes();
+        size_t steps = 0;
+        for (auto it = idx->begin(); it != idx->end() && steps < pts.size() + 2; ++it, ++steps) sink = sink + from_tuple<D>(*it)[0];
+        (void) sink;
+        res.label("mem_plain_traversal");
+    }
     if (c13 || mem) {
         for (size_t b = 0; b < boxes.size() && res.ok; ++b) {
             const Pt4 &lo = boxes[b].first, &hi = boxes[b].second;
